@@ -738,6 +738,7 @@ func main() {
 	// (i) nesting limit: boundary (limit-1 accepted, limit rejected) and 3,000,000 levels in a child
 	// process (must be an error, process alive), both parsers, brackets and NOTs
 	nestingProbe(w, *tier == "thorough")
+	nestingFlat(w)
 	// (j) flat chain of 10^7 operators (known finding), thorough tier only
 	if *tier == "thorough" {
 		flatChainProbe(w)
@@ -775,6 +776,8 @@ func doReplay(w *casefile.Writer, path string) {
 		// nesting / flat-chain findings: re-run the probes
 		if pr == "flat-chain" {
 			flatChainProbe(w)
+		} else if pr == "nesting-flat" {
+			nestingFlat(w)
 		} else {
 			nestingProbe(w, false)
 		}
